@@ -11,11 +11,10 @@ import (
 	"verif/engine/mc"
 	"verif/engine/monitor"
 	"verif/internal/hx"
-	"verif/model/fmtspec"
-	"verif/model/refdb"
+	"verif/internal/stk"
 )
 
-const dir = "/d"
+const dir = stk.Dir
 
 // step is one API call of a process program.
 type step struct {
@@ -65,109 +64,6 @@ type scenario struct {
 	MixedHash bool
 }
 
-// txn builds the small transaction with the given id. Every transaction touches
-// the shared ref refs/x, a ref of its own and one reflog entry, so that every lost or
-// duplicated commit changes the view.
-func txn(id string) hx.Txn {
-	switch {
-	case id == "empty":
-		return hx.Txn{ID: id}
-	case strings.HasPrefix(id, "name:"):
-		// name:<refname> : a single ref create (for C12 under contention)
-		n := strings.TrimPrefix(id, "name:")
-		return hx.Txn{ID: id, Refs: []hx.RefOp{{Name: n, Kind: 1, Val: id}}}
-	case strings.HasPrefix(id, "del:"):
-		n := strings.TrimPrefix(id, "del:")
-		return hx.Txn{ID: id, Refs: []hx.RefOp{{Name: n, Kind: 0}}}
-	case strings.HasPrefix(id, "log"):
-		return hx.Txn{ID: id, Refs: []hx.RefOp{{Name: "refs/x", Kind: 1, Val: id}},
-			Logs: []hx.LogOp{{Name: "refs/x", Msg: id, Time: 500, Old: "o" + id, New: "n" + id}}}
-	}
-	return hx.Txn{ID: id,
-		Refs: []hx.RefOp{{Name: "refs/t/" + id, Kind: 2, Val: id, Peeled: "p" + id}, {Name: "refs/x", Kind: 1, Val: id}},
-		Logs: []hx.LogOp{{Name: "refs/x", Msg: "m " + id, Time: 1000, Old: "o" + id, New: "n" + id}},
-	}
-}
-
-func hashSize(cfg reftable.Config) int {
-	if cfg.HashID == reftable.SHA256ID {
-		return 32
-	}
-	return 20
-}
-
-func hashName(cfg reftable.Config) string {
-	if cfg.HashID == reftable.SHA256ID {
-		return "s256"
-	}
-	return "sha1"
-}
-
-// initialDir builds the initial directory with the real code in atomic mode.
-var initCache = map[string]map[string][]byte{}
-
-func initialDir(kind string, cfg reftable.Config) (map[string][]byte, error) {
-	key := kind + "/" + hashName(cfg)
-	if m, ok := initCache[key]; ok {
-		return m, nil
-	}
-	w := mc.NewWorld(dir)
-	rt.E = w
-	defer func() { rt.E = nil }()
-	err := w.RunAtomic(func() error {
-		w.Proc(0).ID = 0
-		st, err := reftable.NewStack(dir, cfg)
-		if err != nil {
-			return err
-		}
-		st.VerifSetAutoCompact(false)
-		var ids []string
-		switch kind {
-		case "empty":
-		case "one":
-			ids = []string{"i1"}
-		case "two":
-			ids = []string{"i1", "i2"}
-		case "three":
-			// the middle table holds a tombstone for a ref created in the first
-			ids = []string{"i1", "del:refs/t/i1", "i3"}
-		case "four":
-			ids = []string{"i1", "i2", "i3", "i4"}
-		default:
-			return fmt.Errorf("unknown initial stack %q", kind)
-		}
-		for _, id := range ids {
-			t := txn(id)
-			if err := st.Add(func(wr *reftable.Writer) error { return t.Write(wr, st.NextUpdateIndex(), hashSize(cfg)) }); err != nil {
-				return fmt.Errorf("initial Add(%s): %v", id, err)
-			}
-		}
-		st.Close()
-		return nil
-	})
-	if err != nil {
-		return nil, err
-	}
-	m := w.Snapshot()
-	initCache[key] = m
-	return m, nil
-}
-
-func modelOf(snap map[string][]byte) (*refdb.DB, error) {
-	var tabs []*fmtspec.Table
-	for _, n := range strings.Split(string(snap["tables.list"]), "\n") {
-		if n == "" {
-			continue
-		}
-		t, err := fmtspec.Decode(snap[n])
-		if err != nil {
-			return nil, fmt.Errorf("initial table %s: %v", n, err)
-		}
-		tabs = append(tabs, t)
-	}
-	return refdb.Overlay(tabs).DropTombstones(), nil
-}
-
 // monitors installed for a property
 type mons struct {
 	ref  *monitor.Refinement
@@ -175,15 +71,15 @@ type mons struct {
 }
 
 func (sc *scenario) build(prop string) (*mc.Scenario, error) {
-	snap, err := initialDir(sc.Init, sc.Cfg)
+	snap, err := stk.InitialDir(sc.Init, sc.Cfg)
 	if err != nil {
 		return nil, err
 	}
-	m0, err := modelOf(snap)
+	m0, err := stk.ModelOf(snap)
 	if err != nil {
 		return nil, err
 	}
-	hs := hashSize(sc.Cfg)
+	hs := stk.HashSize(sc.Cfg)
 	build := func() *mc.World {
 		w := mc.NewWorld(dir)
 		w.Restore(snap)
@@ -194,7 +90,7 @@ func (sc *scenario) build(prop string) (*mc.Scenario, error) {
 			ms.ref = monitor.NewRefinement(prop, sc.Cfg, m0.Clone())
 			w.Monitors = append(w.Monitors, ms.ref)
 		case "C05":
-			li := &monitor.ListIntegrity{Prop: prop, HashID: hashName(sc.Cfg), Cfg: sc.Cfg, CheckOpen: true}
+			li := &monitor.ListIntegrity{Prop: prop, HashID: stk.HashName(sc.Cfg), Cfg: sc.Cfg, CheckOpen: true}
 			if sc.Init == "empty" {
 				li.HashID = "" // decided by the first committed table
 			}
@@ -243,7 +139,7 @@ func handle(p *mc.Proc) *reftable.Stack {
 }
 
 func (sc *scenario) call(w *mc.World, ms *mons, ps procSpec, s step, prop string) mc.Call {
-	hs := hashSize(sc.Cfg)
+	hs := stk.HashSize(sc.Cfg)
 	lbl := s.label()
 	inner := func(p *mc.Proc) string {
 		st := handle(p)
@@ -264,10 +160,10 @@ func (sc *scenario) call(w *mc.World, ms *mons, ps procSpec, s step, prop string
 			}
 			n.VerifSetAutoCompact(!ps.NoAuto)
 			p.Local["h"] = n
-			p.Local["hs"] = hashSize(cfg)
+			p.Local["hs"] = stk.HashSize(cfg)
 			return "ok"
 		case "add":
-			t := txn(s.Txns[0])
+			t := stk.Txn(s.Txns[0])
 			var pend []*monitor.Pending
 			myhs := hs
 			if v, ok := p.Local["hs"].(int); ok {
@@ -301,7 +197,7 @@ func (sc *scenario) call(w *mc.World, ms *mons, ps procSpec, s step, prop string
 			var pend []*monitor.Pending
 			res := "ok"
 			for _, id := range s.Txns {
-				t := txn(id)
+				t := stk.Txn(id)
 				err := tr.Add(func(wr *reftable.Writer) error {
 					// an Addition's tables take consecutive update indices
 					ui := st.NextUpdateIndex() + uint64(len(pend))
